@@ -15,7 +15,7 @@ import traffic_weaver.rfa as rfa_mod
 PROPERTY = "C20"
 LEVEL = "exploration"
 RULE = ("machine: the C09 state machine (valid operations build a non-trivial state, incl. the 'spans differ' state "
-        "after recreate + off-grid truncation) extended with one invalid rule per class: recreate n in {1,0,-2,1.9} "
+        "after recreate + off-grid truncation) extended with one invalid rule per class: recreate n in {1,0,-1,-2} "
         "for every strategy; integral_match with unknown target rule / reference rule / search strategy (in states "
         "where matching is otherwise valid), fixed positions not in x, more fixed positions/indices than samples; "
         "truncate_by_value with left >= right in all ratio/absolute combinations, inverted for the working series, "
@@ -53,17 +53,17 @@ def stateless_case(draw, ctx):
         case["shape"] = draw(st.sampled_from(["(N,)", "(N,3)", "(N,1)", "(N,2,2)", "(2,N)", "(2,)", "(4,)", "()", "(1,)",
                                               "(1,2,1)", "(2,1)"]))
     elif kind in ("integral_name", "search_name", "interpolate_name"):
-        case["name"] = draw(st.sampled_from(["bogus", "", "Trapezoid", "rect", "LOWER", "nearest", "quadratic", "simpson"]))
+        case["name"] = draw(st.sampled_from(["bogus", "", "no-such-option", "simpson3/8", "median", "42"]))
     elif kind == "dataset_name":
         case["name"] = draw(st.sampled_from(["", "sandvine", "sandvine_", "sandvine-tik-tok", "mix-it", "ams-ix_dailyy",
                                              "ix-br-aggregated", "sandvine_dataset_description", "load_dataset",
                                              "mix_it_dataset_description", "unknown", "fetch_ams_ix_daily"]))
     elif kind == "rfa_n":
         case["strategy"] = draw(st.sampled_from(gens.STRATEGY_NAMES))
-        case["n"] = draw(st.sampled_from([1, 0, -2, 1.9, 1.5]))
+        case["n"] = draw(st.sampled_from([1, 0, -1, -2]))
     else:
         case["what"] = draw(st.sampled_from(["target", "reference", "search", "not_in_x", "too_many_x", "too_many_idx"]))
-        case["name"] = draw(st.sampled_from(["bogus", "", "Rectangle"]))
+        case["name"] = draw(st.sampled_from(["bogus", "", "no-such-option"]))
     return case
 
 
